@@ -7,6 +7,7 @@ mod front;
 mod c13;
 mod c03;
 mod c02;
+mod c01;
 mod inputs;
 
 #[path = "/repo/harper-ls/src/git_commit_parser.rs"]
@@ -24,6 +25,7 @@ fn main() {
         "c13" => c13::main(&a),
         "c03" => c03::main(&a),
         "c02" => c02::main(&a),
+        "c01" => c01::main(&a),
         other => {
             eprintln!("unknown subcommand {other}");
             std::process::exit(2);
